@@ -20,6 +20,8 @@ import importlib
 import inspect
 import textwrap
 
+from fractions import Fraction as Fr
+
 from ..common import get_index, nf, check_equal, same_value
 from ..index import norm_text
 from ..interp import Interp, has_unknown, unknown_atoms, RangeVal, ShapeOf
@@ -420,6 +422,57 @@ def run(rep, tier, root=None):
                     rep.unknown("B5.allocation-coverage", k.fq, why, k.where())
                 else:
                     rep.check(okc, "B5.allocation-coverage", k.fq + ": every element of ee written", why, k.where(), note=why)
+            # B5.grid-covers-curve: the curve is resampled on xi = linspace(0, E, .); its abscissae are either the aperture radii
+            # r_i or the diameters sqrt(4 A_i / pi) of the discs of equal area (A_i ~ pi r_i^2, so ~ 2 r_i).  The reported
+            # diameter is read off the resampled curve, so the grid must reach the last abscissa: E = r_max, resp. 2 r_max
+            import math as _m
+            xia = xi.single_atom() if isinstance(xi, Rat) else None
+            tabs = [a for a in find_atoms(xs, lambda q: isinstance(q, Fn) and q.name == "loopstore")]
+            verdict = None
+            if isinstance(xia, Fn) and xia.name == "linspace" and isinstance(xia.args[1], Rat) and len(tabs) == 1 and isinstance(tabs[0].args[0], Rat):
+                sa_ = tabs[0].args[0].single_atom()
+                if isinstance(sa_, Fn) and sa_.name == "setitem" and isinstance(sa_.args[2], Rat):
+                    from ..plf import rpow as _rpow
+                    val = sa_.args[2]
+
+                    def last_of(table):
+                        """last entry of c * linspace(0, b, n) ** e"""
+                        tt = table.single_term() if isinstance(table, Rat) else None
+                        if tt and len(tt[1]) == 1 and isinstance(tt[1][0][0], Fn) and tt[1][0][0].name == "linspace" and \
+                                isinstance(tt[1][0][0].args[1], Rat) and same_value(tt[1][0][0].args[0], Rat.const(0)):
+                            return Rat.const(tt[0]) * _rpow(tt[1][0][0].args[1], tt[1][0][1])
+                        return None
+                    vt = val.single_term()
+                    factor = r_max = None
+                    if vt and len(vt[1]) == 1 and isinstance(vt[1][0][0], Fn) and vt[1][0][0].name == "sum" and vt[1][0][1] == Fr(1, 2):
+                        ind = vt[1][0][0].args[0].single_atom() if isinstance(vt[1][0][0].args[0], Rat) else None
+                        if is_indicator(ind):
+                            r2 = ind.args[1].single_atom().args[2]             # squared radius of aperture i
+                            items = [q for q in find_atoms(r2, lambda q: isinstance(q, Fn) and q.name == "getitem" and isinstance(q.args[0], Rat))]
+                            if len(items) == 1 and same_value(r2, Rat.atom(items[0]) ** 2):
+                                r_max = last_of(items[0].args[0])
+                                factor = complex(vt[0]).real * _m.sqrt(_m.pi)          # sqrt(c^2 * pi r^2) = c sqrt(pi) r
+                    else:
+                        va_ = val.single_atom()
+                        if isinstance(va_, Fn) and va_.name == "getitem" and isinstance(va_.args[0], Rat):
+                            r_max = last_of(va_.args[0])
+                            factor = 1.0
+                    if factor is not None and r_max is not None:
+                        ratio = (xia.args[1] / r_max)
+                        rc = ratio.real_const() if isinstance(ratio, Rat) else None
+                        verdict = (rc is not None and rc >= factor * (1 - 1e-6), rc, factor)
+            if verdict is None:
+                rep.unknown("B5.grid-covers-curve", k.fq, "cannot relate the resampling grid to the abscissae of the curve", k.where())
+            else:
+                okg, rc, factor = verdict
+                rep.check(okg, "B5.grid-covers-curve", k.fq + ": the resampling grid reaches the last abscissa of the curve"
+                          + ("" if okg else " (grid ends at %s x r_max, abscissae at %.3g x r_max)" % ("%.3g" % rc if rc is not None else "?", factor)),
+                          "the curve's abscissae run to %.4g x the largest aperture radius (%s), the grid it is resampled on stops at %s x that "
+                          "radius: the upper part of the curve is discarded, and for every image whose requested fraction is reached only "
+                          "there (diameter > size/2) the reported diameter is size/2, where the curve is below the fraction "
+                          "(uniform 32 x 32, fraction 0.5: 16.0 returned, curve value 0.197, true diameter 25.5)"
+                          % (factor, "equal-area diameters" if factor > 1.5 else "radii", "%.4g" % rc if rc is not None else "an unknown multiple of"),
+                          k.where())
             # diameter path
             d = diam[0]
             want_d = Rat.atom(Fn("getitem", (xi, Rat.atom(Fn("argmin", (Rat.atom(Fn("abs", (yi - Rat.sym("fraction"),))), None))))))
